@@ -80,37 +80,55 @@ impl<T> SpscRing<T> {
 
     #[inline]
     pub fn is_empty(&self) -> bool {
+        #[cfg(rustrtc_verif)]
+        crate::verif_hooks::media::verif_yield(crate::verif_hooks::media::point::IS_EMPTY);
         self.head.load(Ordering::Relaxed) == self.tail.load(Ordering::Relaxed)
     }
 
     #[inline]
     pub fn push(&self, value: T) -> Result<(), T> {
+        #[cfg(rustrtc_verif)]
+        crate::verif_hooks::media::verif_yield(crate::verif_hooks::media::point::PUSH_LOAD_TAIL);
         let tail = self.tail.load(Ordering::Relaxed);
+        #[cfg(rustrtc_verif)]
+        crate::verif_hooks::media::verif_yield(crate::verif_hooks::media::point::PUSH_LOAD_HEAD);
         let head = self.head.load(Ordering::Acquire);
         if tail.wrapping_sub(head) >= self.capacity {
             return Err(value);
         }
 
         let idx = tail % self.capacity;
+        #[cfg(rustrtc_verif)]
+        crate::verif_hooks::media::verif_yield(crate::verif_hooks::media::point::PUSH_WRITE_SLOT);
         // Safety: producer is the only writer for this slot, and slot is empty because queue isn't full.
         unsafe {
             (*self.buffer[idx].get()).write(value);
         }
+        #[cfg(rustrtc_verif)]
+        crate::verif_hooks::media::verif_yield(crate::verif_hooks::media::point::PUSH_STORE_TAIL);
         self.tail.store(tail.wrapping_add(1), Ordering::Release);
         Ok(())
     }
 
     #[inline]
     pub fn pop(&self) -> Option<T> {
+        #[cfg(rustrtc_verif)]
+        crate::verif_hooks::media::verif_yield(crate::verif_hooks::media::point::POP_LOAD_HEAD);
         let head = self.head.load(Ordering::Relaxed);
+        #[cfg(rustrtc_verif)]
+        crate::verif_hooks::media::verif_yield(crate::verif_hooks::media::point::POP_LOAD_TAIL);
         let tail = self.tail.load(Ordering::Acquire);
         if head == tail {
             return None;
         }
 
         let idx = head % self.capacity;
+        #[cfg(rustrtc_verif)]
+        crate::verif_hooks::media::verif_yield(crate::verif_hooks::media::point::POP_READ_SLOT);
         // Safety: consumer is the only reader for this slot, and slot is initialized because queue isn't empty.
         let value = unsafe { (*self.buffer[idx].get()).assume_init_read() };
+        #[cfg(rustrtc_verif)]
+        crate::verif_hooks::media::verif_yield(crate::verif_hooks::media::point::POP_STORE_HEAD);
         self.head.store(head.wrapping_add(1), Ordering::Release);
         Some(value)
     }
@@ -169,5 +187,24 @@ mod tests {
         let tail_addr = &q.tail as *const _ as usize;
         // They must be on different 64-byte cache lines.
         assert_ne!(head_addr / 64, tail_addr / 64);
+    }
+}
+
+#[cfg(rustrtc_verif)]
+impl<T> SpscRing<T> {
+    /// Verification hook: raw `(head, tail)` indices.
+    pub fn verif_indices(&self) -> (usize, usize) {
+        (
+            self.head.load(Ordering::SeqCst),
+            self.tail.load(Ordering::SeqCst),
+        )
+    }
+
+    /// Verification hook: a ring whose indices both start at `start` (reaches index wrap-around).
+    pub fn verif_with_start(capacity: usize, start: usize) -> Self {
+        let q = Self::with_capacity(capacity);
+        q.head.store(start, Ordering::SeqCst);
+        q.tail.store(start, Ordering::SeqCst);
+        q
     }
 }
